@@ -50,13 +50,12 @@ Print Assumptions C16_complete_or_partial.
 (* A hot tier that declares the range too old hands the query to the long-term stores, and the
    outcome is exactly the outcome of searching those alone (same classification, same page);
    without long-term stores it is the wants-old error. *)
-Theorem C16_cold_fallback : forall sort, sort_ok sort ->
-  forall p1 p2 hot hotread cold off size rev,
+Theorem C16_cold_fallback : forall sort p1 p2 hot hotread cold off size rev,
   search_stores p1 (match hotread with [] => hot | _ => hotread end) = TWantsOld ->
   (cold <> [] -> search sort p1 p2 hot hotread cold off size rev = search sort p2 p2 cold [] [] off size rev)
   /\ (cold = [] -> search sort p1 p2 hot hotread cold off size rev = SErr EWantsOld).
 Proof.
-  intros sort Hs p1 p2 hot hotread cold off size rev H. split.
+  intros sort p1 p2 hot hotread cold off size rev H. split.
   - exact (cold_fallback sort p1 p2 hot hotread cold off size rev H).
   - intros ->. exact (no_cold_tier sort p1 p2 hot hotread off size rev H).
 Qed.
